@@ -33,8 +33,8 @@ impl Prop for C02 {
     }
     fn runs(&self, tier: Tier) -> u64 {
         match tier {
-            Tier::Quick => 40_000,
-            Tier::Thorough => 1_200_000,
+            Tier::Quick => 600_000,
+            Tier::Thorough => 10_000_000,
             Tier::Tiny => 40,
         }
     }
